@@ -14,10 +14,10 @@ func C04(x *Ctx, r *core.Result) {
 	r.CheckFloor(d, 1)
 	x.floatRules(r)
 	r.NotDecided = append(r.NotDecided,
-		"that exact arithmetic / Eisel-Lemire / decimal fallback compute the nearest float64 for every literal (the published correctness argument of the algorithms; R04a-c,f check the constants, guards and tables it depends on)",
+		"that exact arithmetic / Eisel-Lemire / decimal fallback compute the nearest float64 for every literal (the published correctness argument of the algorithms and the trusted reference strconv; R04f shows the port is that program, R04a-c check the constants, guards and tables)",
 		"adequacy of the 800-digit decimal buffer",
 	)
-	r.Explain = "literal grammar/offset decided by product construction; tables re-derived with math/big; tier guards by dominance; arithmetic compared with GOROOT strconv where shapes match; rounding correctness itself is not decided"
+	r.Explain = "literal grammar/offset decided by product construction; tables re-derived with math/big; tier guards by dominance; the ported arithmetic shown to be the same program as GOROOT's strconv by lockstep co-execution (strconv's own correctness is trusted); rounding correctness as a mathematical fact is not decided"
 }
 
 func init() {
